@@ -146,6 +146,11 @@ func (w *World) accessPath(v ssa.Value, ctxs map[string]*CtxInfo, depth int) str
 		if recv, ai, ok := w.accessorOf(x, ctxs); ok && ai.Known && !strings.HasSuffix(ai.What, "*") {
 			return w.accessPath(recv, ctxs, depth+1) + "." + ai.Name
 		}
+	case *ssa.UnOp:
+		// a variable that lives in a cell because a closure captures it: assigned once, every load is the same node
+		if al := singleAssignCell(x); al != nil {
+			return fmt.Sprintf("%p", al)
+		}
 	}
 	return fmt.Sprintf("%p", v)
 }
@@ -194,6 +199,82 @@ func linkLoad(v ssa.Value) (ssa.Value, string, bool) {
 func guardedFieldNonNil(blk *ssa.BasicBlock, base ssa.Value, field string) bool {
 	fn := blk.Parent()
 	for _, b := range fn.Blocks {
+		cond := branchCond(b)
+		if cond == nil {
+			continue
+		}
+		x, nn, ok := nilTest(cond)
+		if !ok {
+			continue
+		}
+		b2, f2, ok := linkLoad(x)
+		if !ok || f2 != field || stripIdentity(b2) != stripIdentity(base) {
+			continue
+		}
+		if edgeDominates(b, nn, blk) {
+			return true
+		}
+	}
+	// the test lives in a helper handed the base: `p, err := requireX(base); if err != nil { return }` - the helper returns a nil
+	// error only where base.field is not nil
+	for _, b := range fn.Blocks {
+		cond := branchCond(b)
+		if cond == nil {
+			continue
+		}
+		x, nn, ok := nilTest(cond)
+		if !ok || !isErrorType(x.Type()) {
+			continue
+		}
+		var call *ssa.Call
+		idx := 0
+		switch y := stripIdentity(x).(type) {
+		case *ssa.Call:
+			call = y
+		case *ssa.Extract:
+			call, _ = y.Tuple.(*ssa.Call)
+			idx = y.Index
+		}
+		if call == nil {
+			continue
+		}
+		h := call.Call.StaticCallee()
+		if h == nil || h.Blocks == nil || theWorld == nil || !theWorld.isRepoLike(h) {
+			continue
+		}
+		pidx := -1
+		for i, a := range call.Call.Args {
+			if stripIdentity(a) == stripIdentity(base) && i < len(h.Params) {
+				pidx = i
+			}
+		}
+		if pidx < 0 || !edgeDominates(b, 1-nn, blk) {
+			continue
+		}
+		okAll, any := true, false
+		for _, hb := range h.Blocks {
+			ret, isRet := hb.Instrs[len(hb.Instrs)-1].(*ssa.Return)
+			if !isRet || idx >= len(ret.Results) {
+				continue
+			}
+			if k, isC := ret.Results[idx].(*ssa.Const); !isC || !k.IsNil() {
+				continue // an error is returned: the caller leaves
+			}
+			any = true
+			if !guardedFieldNonNilShallow(hb, h.Params[pidx], field) {
+				okAll = false
+			}
+		}
+		if any && okAll {
+			return true
+		}
+	}
+	return false
+}
+
+// guardedFieldNonNilShallow: the direct form only (no helper recursion).
+func guardedFieldNonNilShallow(blk *ssa.BasicBlock, base ssa.Value, field string) bool {
+	for _, b := range blk.Parent().Blocks {
 		cond := branchCond(b)
 		if cond == nil {
 			continue
@@ -515,7 +596,90 @@ func (w *World) guardedByPath(blk *ssa.BasicBlock, path string, ctxs map[string]
 			return true
 		}
 	}
-	return false
+	return w.guardedOnEveryFeasiblePath(blk, path, ctxs)
+}
+
+// guardedOnEveryFeasiblePath: no single edge dominates blk, but every *feasible* way into it passes the non-nil edge of a test of
+// path. Feasible: the nil tests passed on one path (within one loop iteration - back edges are not followed) agree about every tree
+// node they test; accessors are pure and the tree does not change, so `a != nil || b != nil` followed by `a == nil` leaves b != nil.
+func (w *World) guardedOnEveryFeasiblePath(blk *ssa.BasicBlock, path string, ctxs map[string]*CtxInfo) bool {
+	type test struct {
+		p  string
+		nn int
+	}
+	fn := blk.Parent()
+	tests := map[*ssa.BasicBlock]test{}
+	any := false
+	for _, b := range fn.Blocks {
+		cond := branchCond(b)
+		if cond == nil {
+			continue
+		}
+		if x, nn, ok := nilTest(cond); ok {
+			p := w.accessPath(x, ctxs, 0)
+			tests[b] = test{p, nn}
+			if p == path {
+				any = true
+			}
+		}
+	}
+	if !any {
+		return false
+	}
+	steps := 0
+	// walk backwards from blk; facts: what the path (as walked so far, i.e. the later part of the execution) says about each node
+	var walk func(b *ssa.BasicBlock, facts map[string]bool, guarded bool, onPath map[*ssa.BasicBlock]bool) bool
+	walk = func(b *ssa.BasicBlock, facts map[string]bool, guarded bool, onPath map[*ssa.BasicBlock]bool) bool {
+		steps++
+		if steps > 20000 {
+			return false
+		}
+		var preds []*ssa.BasicBlock
+		for _, p := range b.Preds {
+			if b.Dominates(p) || onPath[p] {
+				continue // back edge / cycle: another iteration, the facts do not carry over
+			}
+			preds = append(preds, p)
+		}
+		if len(preds) == 0 {
+			return guarded
+		}
+		for _, p := range preds {
+			f2, g2 := facts, guarded
+			if t, ok := tests[p]; ok && len(p.Succs) == 2 && p.Succs[0] != p.Succs[1] {
+				// which edge of p leads to b?
+				for si, sb := range p.Succs {
+					if sb != b {
+						continue
+					}
+					nonNil := si == t.nn
+					if known, have := facts[t.p]; have && known != nonNil {
+						f2 = nil // contradicts what a later test on this path established: infeasible
+						break
+					}
+					f2 = map[string]bool{}
+					for k, v := range facts {
+						f2[k] = v
+					}
+					f2[t.p] = nonNil
+					if t.p == path && nonNil {
+						g2 = true
+					}
+				}
+				if f2 == nil {
+					continue
+				}
+			}
+			onPath[p] = true
+			ok := walk(p, f2, g2, onPath)
+			delete(onPath, p)
+			if !ok {
+				return false
+			}
+		}
+		return true
+	}
+	return walk(blk, map[string]bool{}, false, map[*ssa.BasicBlock]bool{blk: true})
 }
 
 // accessRoot: the value an accessor chain starts from.
@@ -539,6 +703,10 @@ func (w *World) accessRoot(v ssa.Value, ctxs map[string]*CtxInfo, depth int) ssa
 	case *ssa.Call:
 		if recv, ai, ok := w.accessorOf(x, ctxs); ok && ai.Known && !strings.HasSuffix(ai.What, "*") {
 			return w.accessRoot(recv, ctxs, depth+1)
+		}
+	case *ssa.UnOp:
+		if al := singleAssignCell(x); al != nil {
+			return al
 		}
 	}
 	return v
@@ -647,11 +815,41 @@ func c11RuleG(w *World, r *Report) {
 				recv = valueRoot(mi.X)
 			}
 			kind := ""
-			switch {
-			case typeIs(recv.Type(), grammarPath, "PacketDslLexer"):
-				kind = "lexer"
-			case typeIs(recv.Type(), grammarPath, "PacketDslParser"):
-				kind = "parser"
+			// the recogniser's own static type decides (it may be a member of a record, whose root is the record)
+			direct := stripIdentity(resolveParam(recvArg, ic.bs))
+			if mi, ok := direct.(*ssa.MakeInterface); ok {
+				direct = stripIdentity(mi.X)
+			}
+			// walk from the receiver (an embedded BaseRecognizer) up the chain of member accesses to the recogniser itself
+			chain := []ssa.Value{direct}
+			for v, i := direct, 0; i < 8; i++ {
+				switch x := v.(type) {
+				case *ssa.UnOp:
+					v = x.X
+				case *ssa.FieldAddr:
+					v = x.X
+				case *ssa.Field:
+					v = x.X
+				default:
+					i = 8
+					continue
+				}
+				chain = append(chain, v)
+			}
+			chain = append(chain, recv)
+			for _, cand := range chain {
+				if kind != "" {
+					break
+				}
+				switch {
+				case typeIs(cand.Type(), grammarPath, "PacketDslLexer"):
+					kind = "lexer"
+				case typeIs(cand.Type(), grammarPath, "PacketDslParser"):
+					kind = "parser"
+				}
+			}
+			if os.Getenv("FINLINT_DEBUG_G") != "" {
+				fmt.Fprintf(os.Stderr, "G: call %s in %s direct=%T %s recv=%T %s kind=%q gl=%d\n", ic.call, fnKey(ic.call.Parent()), direct, direct.Type(), recv, recv.Type(), kind, len(gateListeners))
 			}
 			if kind == "" {
 				continue
@@ -1608,6 +1806,12 @@ func (w *World) recursionBounded(caller, callee *ssa.Function, call ssa.CallInst
 			v = fa.X
 		}
 	}
+	// (a') ... or an element of a local list that only ever receives such packets
+	for _, a := range args {
+		if w.elemOfInlineObjectList(stripIdentity(a)) {
+			return "descends into an element of a list of the packet's inline objects (RefPacket on the IsIner edge): inline objects form a finite tree", false
+		}
+	}
 	// (b) visited set in the callee: entry lookup with early return + insert
 	if hasVisitedSet(callee, sameCycle) {
 		return "callee is cut by a visited set (lookup with early return, then insert)", false
@@ -1883,6 +2087,37 @@ func visitedMarks(fn *ssa.Function, depth int) []ssa.Instruction {
 			if hasLookup && hasInsert {
 				out = append(out, x)
 			}
+			// a pair of helpers: this one only looks the element up, another one - called later, on the path that did not return -
+			// inserts it into the same table (`if g.isEmitted(p) { return }; g.markEmitted(p)`)
+			if hasLookup && !hasInsert {
+				keys := map[string]bool{}
+				forEachInstr(g, func(_ *ssa.BasicBlock, i2 ssa.Instruction) {
+					if y, ok := i2.(*ssa.Lookup); ok {
+						if k := structFieldKey(y.X); k != "" {
+							keys[k] = true
+						}
+					}
+				})
+				forEachInstr(fn, func(b2 *ssa.BasicBlock, i2 ssa.Instruction) {
+					c2, ok := i2.(*ssa.Call)
+					if !ok || !b.Dominates(b2) || i2 == ins {
+						return
+					}
+					g2 := c2.Call.StaticCallee()
+					if g2 == nil || g2.Blocks == nil || g2.Pkg != fn.Pkg || g2 == g {
+						return
+					}
+					inserts := false
+					forEachInstr(g2, func(_ *ssa.BasicBlock, i3 ssa.Instruction) {
+						if mu, ok := i3.(*ssa.MapUpdate); ok && keys[structFieldKey(mu.Map)] {
+							inserts = true
+						}
+					})
+					if inserts {
+						out = append(out, c2)
+					}
+				})
+			}
 		}
 	})
 	return out
@@ -2124,6 +2359,39 @@ func normMapDesc(m ssa.Value) string {
 		}
 		if becomes {
 			return ".FieldMap"
+		}
+	}
+	// a map that reaches this place through a parameter, a local cell or a captured variable and that is (elsewhere) made the
+	// packet's FieldMap
+	if theWorld != nil {
+		if origins := makeMapOrigins(m, 0, map[ssa.Value]bool{}); len(origins) > 0 {
+			becomes := false
+			for _, fn := range theWorld.srcFuncs {
+				if fn.Pkg != theWorld.Parser || becomes {
+					continue
+				}
+				forEachInstr(fn, func(_ *ssa.BasicBlock, ins ssa.Instruction) {
+					st, ok := ins.(*ssa.Store)
+					if !ok || becomes {
+						return
+					}
+					fa, ok := st.Addr.(*ssa.FieldAddr)
+					if !ok {
+						return
+					}
+					if _, f, _, _ := fieldOf(fa); f != "FieldMap" {
+						return
+					}
+					for mk := range makeMapOrigins(st.Val, 0, map[ssa.Value]bool{}) {
+						if origins[mk] {
+							becomes = true
+						}
+					}
+				})
+			}
+			if becomes {
+				return ".FieldMap"
+			}
 		}
 	}
 	return mapDesc(m)
@@ -3053,4 +3321,77 @@ func cellOf(v ssa.Value) *ssa.Alloc {
 		return cell
 	}
 	return nil
+}
+
+// elemOfInlineObjectList: v is an element (indexed load) of a local slice of packets, and every value appended to that slice in
+// the function is the RefPacket of an object attribute on its IsIner edge.
+func (w *World) elemOfInlineObjectList(v ssa.Value) bool {
+	ld, ok := v.(*ssa.UnOp)
+	if !ok || ld.Op != token.MUL {
+		return false
+	}
+	ia, ok := ld.X.(*ssa.IndexAddr)
+	if !ok {
+		return false
+	}
+	sl, ok := ia.X.Type().Underlying().(*types.Slice)
+	if !ok || modelTypeName(sl.Elem()) != "Packet" {
+		return false
+	}
+	// the appends feeding the slice value
+	var appends []*ssa.Call
+	seen := map[ssa.Value]bool{}
+	var walk func(x ssa.Value, depth int) bool
+	walk = func(x ssa.Value, depth int) bool {
+		x = stripIdentity(x)
+		if depth > 8 || seen[x] {
+			return true
+		}
+		seen[x] = true
+		switch y := x.(type) {
+		case *ssa.Const:
+			return y.IsNil()
+		case *ssa.MakeSlice:
+			return true
+		case *ssa.Slice:
+			return walk(y.X, depth+1)
+		case *ssa.Phi:
+			for _, e := range y.Edges {
+				if !walk(e, depth+1) {
+					return false
+				}
+			}
+			return true
+		case *ssa.Call:
+			if bi, ok := y.Call.Value.(*ssa.Builtin); ok && bi.Name() == "append" && len(y.Call.Args) == 2 {
+				appends = append(appends, y)
+				return walk(y.Call.Args[0], depth+1)
+			}
+		}
+		return false
+	}
+	if !walk(ia.X, 0) || len(appends) == 0 {
+		return false
+	}
+	for _, ap := range appends {
+		for _, o := range variadicOperands(ap.Call.Args[1]) {
+			o = stripIdentity(o)
+			l2, ok := o.(*ssa.UnOp)
+			if !ok || l2.Op != token.MUL {
+				return false
+			}
+			fa, ok := l2.X.(*ssa.FieldAddr)
+			if !ok {
+				return false
+			}
+			if tn, fname, _, _ := fieldOf(fa); tn != "ObjectFieldAttribute" || fname != "RefPacket" {
+				return false
+			}
+			// the store into the variadic slot happens in the block of the IsIner edge
+			if !w.underIsIner(l2.Block(), fa.X) {
+				return false
+			}
+		}
+	}
+	return true
 }
